@@ -357,7 +357,32 @@ class Gen(object):
                 ifs.append(e['name'])
                 self.types.append((e['name'], 'interface'))
             entries.append(e)
+        if self.rng.random() < 0.6:
+            entries.append(self.gen_twins())
         return dict(name='T', version='1.0', entries=entries)
+
+    def gen_twins(self):
+        """a function whose array parameters differ in a single option each (zero-termination with the same length
+        or fixed size, length index 0 against 1, fixed sizes): types the compiler may be tempted to share"""
+        elem = self.rng.choice([('basic', 'gint32'), ('utf8',), ('basic', 'guint8'), ('gpointer',)])
+        f = self.gen_function()
+        mk = lambda i, o: dict(name='p%d' % i, dir='in', transfer='none', nullable=False, optional=False, caller_allocates=False,
+                               skip=False, scope=None, closure=None, destroy=None, type=('array', elem, o), attrs={})
+        f['params'] = [dict(name='p0', dir='in', transfer='none', nullable=False, optional=False, caller_allocates=False, skip=False,
+                            scope=None, closure=None, destroy=None, type=('basic', 'gint32'), attrs={}),
+                       dict(name='p1', dir='in', transfer='none', nullable=False, optional=False, caller_allocates=False, skip=False,
+                            scope=None, closure=None, destroy=None, type=('basic', 'gint32'), attrs={}),
+                       mk(2, dict(length=0, zero=True)), mk(3, dict(length=0, zero=False)), mk(4, dict(length=1, zero=False)),
+                       mk(5, dict(fixed=4, zero=True)), mk(6, dict(fixed=4, zero=False)), mk(7, dict(fixed=3, zero=False)),
+                       mk(8, dict(zero=True)), mk(9, dict(zero=False)), mk(10, dict(length=0))]
+        self.rng.shuffle(f['params'])
+        # keep the two integers in front so that the length indices stay 0 and 1
+        ints = [p for p in f['params'] if p['type'][0] == 'basic']
+        arrs = [p for p in f['params'] if p['type'][0] == 'array']
+        f['params'] = ints + arrs
+        for i, p in enumerate(f['params']):
+            p['name'] = 'p%d' % i
+        return f
 
 
 # ------------------------------------------------------------------ GIR rendering
